@@ -31,9 +31,10 @@ def gen(rng, n):
         locs = rng.sample([l for l in LOCS if l != '/'], rng.randint(1, 6))
         if rng.random() < 0.3:
             locs.append(rng.choice(locs))          # the same location trashed twice
+        fam = scen.suffix_family(rng)
         for k, loc in enumerate(locs):
             date = rng.choice(scen.DATES + [None, None])
-            name = 'n%d' % k
+            name = fam[k] if k < len(fam) else 'n%d' % k
             tree += scen.entry(td, name, loc, date, rng.choice(['f', 'f', 'd']))
             ents.append({'name': name, 'loc': loc, 'date': date, 'k': k})
         scope = rng.choice(['/', '/a', '/a/foo', '/a/foobar', '/a/fo', '/b', '/a/', 'a', '.', '..', '/c/d', None])
